@@ -51,6 +51,23 @@ class FakePrims:
                     setattr(mod, nm, f)
 
 
+def factor_shape(rng, total):
+    """a random ordered factorisation of `total` (prime factors distributed over 1..4 positions, ones inserted)"""
+    fs, n, p = [], total, 2
+    while n > 1:
+        while n % p == 0:
+            fs.append(p); n //= p
+        p += 1
+    rng.shuffle(fs)
+    k = rng.randint(1, max(1, min(4, len(fs))))
+    out = [1] * k
+    for f in fs:
+        out[rng.randrange(k)] *= f
+    while rng.random() < 0.3 and len(out) < 6:
+        out.insert(rng.randrange(len(out) + 1), 1)
+    return out
+
+
 def sweep_cases(rng, tier, which):
     cases = []
     n = 30 if tier == "quick" else 250
@@ -74,6 +91,109 @@ def sweep_cases(rng, tier, which):
                 e = exact_equal(dense_of(x), A)
                 return ("with an exact factorisation oracle and no truncation the sweep must reproduce A exactly: " + e) if e else None
             cases.append(Case(J("tott", cap, dense_tokens(A)), impl, oracle, "sweep/to_tt/d%d/cap%s" % (d, cap), True, gauge_ok=False))
+        elif which == "permute":
+            x = rand_tt(rng, N, rand_ranks(rng, d, 3), tn.float64)
+            dx = dense_of(x)
+            dims = list(range(d)); rng.shuffle(dims)
+
+            def impl(x=x, cap=cap, dims=dims):
+                with FakePrims(cap):
+                    y = torchtt.permute(x, list(dims), eps=0.5)
+                return out_tt(y)
+
+            def oracle(x=x, dx=dx, cap=cap, dims=dims):
+                if cap < 1000:
+                    return None
+                with FakePrims(cap):
+                    y = torchtt.permute(x, list(dims), eps=0.5)
+                e = exact_equal(dense_of(y), dx.permute(dims))
+                return ("permute with exact oracles and no truncation must move the entries exactly: " + e) if e else None
+            cases.append(Case(J("permutett", cap, [d] + dims, tt_tokens(x)), impl, oracle, "sweep/permute/d%d/cap%s" % (d, cap), True, gauge_ok=False))
+        elif which in ("mat_to_tt", "lr_orthogonal_ttm", "round_ttm"):
+            d = rng.randint(2, 4)
+            M = [rng.randint(1, 3) for _ in range(d)]
+            N = [rng.randint(1, 2) for _ in range(d)]
+            if which == "mat_to_tt":
+                A = int_tensor(rng, M + N, tn.float64, -3, 3)
+                shp = [(m, n) for m, n in zip(M, N)]
+
+                def impl(A=A, cap=cap, shp=shp):
+                    with FakePrims(cap):
+                        x = torchtt.TT(A.clone(), shape=list(shp), eps=0.5)
+                    return out_tt(x)
+
+                def oracle(A=A, cap=cap, shp=shp):
+                    if cap < 1000:
+                        return None
+                    with FakePrims(cap):
+                        x = torchtt.TT(A.clone(), shape=list(shp), eps=0.5)
+                    e = exact_equal(dense_of(x), A)
+                    return ("mat_to_tt with an exact factorisation oracle and no truncation must reproduce A exactly: " + e) if e else None
+                cases.append(Case(J("mattott", cap, [d] + M, [d] + N, dense_tokens(A)), impl, oracle, "sweep/mat_to_tt/d%d/cap%s" % (d, cap), True, gauge_ok=False))
+            else:
+                x = rand_tt(rng, N, rand_ranks(rng, d, 3), tn.float64, M=M)
+                dx = dense_of(x)
+                if which == "lr_orthogonal_ttm":
+                    def impl(x=x):
+                        with FakePrims(1000):
+                            cs, R = D.lr_orthogonal([c.clone() for c in x.cores], list(x.R), True)
+                        return out_tt(torchtt.TT(cs))
+
+                    def oracle(x=x, dx=dx):
+                        with FakePrims(1000):
+                            cs, R = D.lr_orthogonal([c.clone() for c in x.cores], list(x.R), True)
+                        e = exact_equal(dense_of(torchtt.TT(cs)), dx)
+                        return ("lr_orthogonal (TT-matrix) with an exact QR oracle changed the operator: " + e) if e else None
+                    cases.append(Case(J("lrorthm", tt_tokens(x)), impl, oracle, "sweep/lr_orthogonal_ttm/d%d" % d, True, gauge_ok=False))
+                else:
+                    def impl(x=x, cap=cap):
+                        with FakePrims(cap):
+                            y = x.round(0.5)
+                        return out_tt(y)
+
+                    def oracle(x=x, dx=dx, cap=cap):
+                        if cap < 1000:
+                            return None
+                        with FakePrims(cap):
+                            y = x.round(0.5)
+                        e = exact_equal(dense_of(y), dx)
+                        return ("round (TT-matrix) with exact oracles and no truncation changed the operator: " + e) if e else None
+                    cases.append(Case(J("roundttm", cap, tt_tokens(x)), impl, oracle, "sweep/round_ttm/d%d/cap%s" % (d, cap), True, gauge_ok=False))
+        elif which == "reshape":
+            N = [rng.choice([1, 2, 3, 4, 6]) for _ in range(rng.randint(1, 4))]
+            d = len(N)
+            x = rand_tt(rng, N, rand_ranks(rng, d, 3), tn.float64)
+            dx = dense_of(x)
+            dst = factor_shape(rng, int(np.prod(N)))
+
+            def impl(x=x, cap=cap, dst=dst):
+                with FakePrims(cap):
+                    y = torchtt.reshape(x, list(dst), eps=0.5)
+                return out_tt(y)
+
+            def oracle(x=x, dx=dx, cap=cap, dst=dst):
+                if cap < 1000:
+                    return None
+                with FakePrims(cap):
+                    y = torchtt.reshape(x, list(dst), eps=0.5)
+                e = exact_equal(dense_of(y), dx.reshape(dst))
+                return ("reshape with exact oracles and no truncation must keep the row-major entry order exactly: " + e) if e else None
+            cases.append(Case(J("reshapett", cap, [len(dst)] + dst, tt_tokens(x)), impl, oracle, "sweep/reshape/d%d->%d/cap%s" % (d, len(dst), cap), True, gauge_ok=False))
+        elif which == "rl_orthogonal":
+            x = rand_tt(rng, N, rand_ranks(rng, d, 3), tn.float64)
+            dx = dense_of(x)
+
+            def impl(x=x):
+                with FakePrims(1000):
+                    cs, R = D.rl_orthogonal([c.clone() for c in x.cores], list(x.R), False)
+                return "tt " + " ".join(["T", str(len(cs))] + [t for c in cs for t in __import__("common").core_tokens(c)])
+
+            def oracle(x=x, dx=dx):
+                with FakePrims(1000):
+                    cs, R = D.rl_orthogonal([c.clone() for c in x.cores], list(x.R), False)
+                e = exact_equal(dense_of(torchtt.TT(cs)), dx)
+                return ("rl_orthogonal with an exact QR oracle changed the tensor: " + e) if e else None
+            cases.append(Case(J("rlorth", tt_tokens(x)), impl, oracle, "sweep/rl_orthogonal/d%d" % d, True, gauge_ok=False))
         else:
             x = rand_tt(rng, N, rand_ranks(rng, d, 3), tn.float64)
             dx = dense_of(x)
